@@ -174,6 +174,12 @@ func (m *Matrix) validatePermutation(p MatrixPermutation) error {
 
 	// Check if the permutation matches any adjustment.
 	for _, adj := range m.Adjustments {
+		// A nil adjustment (e.g. from `adjustments: [~]`) has no dimensions at
+		// all, so it is malformed.
+		if adj == nil {
+			return fmt.Errorf("%w: adjustment is nil", errAdjustmentLengthMismatch)
+		}
+
 		// Ensure adj.With has the same size and dimension names as m.Setup.
 		// adj.With is a map so no need to check for repetition.
 		// Because adjustments can introduce new dimension values, only the
